@@ -278,6 +278,17 @@ def step (x : Sess) (toks : List String) : Step :=
         | .error f => failed f
         | .ok x' => simple x' s!"r=ok dc={x'.dropCount}"
     | none => { sess := some x, out := "bad-op" }
+  -- `detach()` on an owned byte buffer that stays alive until its `drop`: from now on it behaves like the handle of
+  -- a zero-size owned object (it holds an arena value, its drop releases nothing and drops no value)
+  | ["hold", h] =>
+    match h.toNat? with
+    | some id =>
+      match x.find id with
+      | none => nohandle x
+      | some hd =>
+        if hd.kind == .bytes && hd.owned && !hd.null then simple (x.put id { hd with kind := .obj, null := true }) "r=ok"
+        else { sess := some x, out := "bad-op" }
+    | none => { sess := some x, out := "bad-op" }
   | ["dealloc", h] =>
     match h.toNat? with
     | some id =>
